@@ -153,7 +153,15 @@ func (h *httpContext) InspectServerBlocks(sourceFile string, serverBlocks []cask
 				addrCopy.Port = Port
 			}
 			addrStr := addrCopy.String()
-			if otherSiteKey, dup := siteAddrs[addrStr]; dup {
+			// Requests are routed by host, port and path only, so two addresses
+			// that differ merely in scheme, or in "/" versus no path at all, are
+			// the same site: the one declared last would shadow the other.
+			dupPath := addrCopy.Path
+			if dupPath == "/" {
+				dupPath = ""
+			}
+			dupKey := net.JoinHostPort(addrCopy.Host, addrCopy.Port) + dupPath
+			if otherSiteKey, dup := siteAddrs[dupKey]; dup {
 				err := fmt.Errorf("duplicate site address: %s", addrStr)
 				if (addrCopy.Host == Host && Host != DefaultHost) ||
 					(addrCopy.Port == Port && Port != DefaultPort) {
@@ -162,7 +170,7 @@ func (h *httpContext) InspectServerBlocks(sourceFile string, serverBlocks []cask
 				}
 				return serverBlocks, err
 			}
-			siteAddrs[addrStr] = key
+			siteAddrs[dupKey] = key
 
 			// If default HTTP or HTTPS ports have been customized,
 			// make sure the ACME challenge ports match
